@@ -1,6 +1,7 @@
-"""C25 — the parser never silently changes numbers: the Result of every numeric parse in
-query::parser is propagated as a parse error; parsed numbers pass no narrowing cast.
-(The panic inventory of the parser is reported as evidence, not claimed.)"""
+"""C25 — the parser never panics and never silently changes numbers: the Result of every numeric
+parse in query::parser is propagated as a parse error; parsed numbers pass no narrowing cast; the
+panic-capable sites of the parser are exactly the reviewed set (grammar-dependent arguments are
+re-checked against cypher.pest)."""
 from ..cfg import Body
 from ..report import where
 from ..facts import in_module
@@ -13,6 +14,47 @@ SWALLOWING = ("ok", "unwrap", "expect", "unwrap_or", "unwrap_or_default", "unwra
 # reviewed exceptions: site key -> reason
 EXCEPTIONS = {
     "unescape_string_literal|from_str_radix|0": "not a numeral: the hex digits of a \\\\uXXXX string escape; an invalid escape is kept verbatim in the string (lenient unescape), no number is produced or replaced",
+}
+
+
+G = None
+# reviewed panic-capable sites of query::parser: key -> (argument, grammar fact it leans on or None)
+PANIC_REVIEWED = {
+    "parse_expression|index|0": ("terms[i] with i < ops.len() and terms.len() == ops.len() + 1 checked on the line above", G),
+    "parse_expression|index|1": ("terms[i + 1] with i < ops.len() and terms.len() == ops.len() + 1", G),
+    "parse_expression|assert:overflow:Add|0": ("ops.len() + 1 on a Vec length", G),
+    "parse_expression|assert:overflow:Add|1": ("ops.len() + 1 on a Vec length", G),
+    "parse_expression|assert:overflow:Add|2": ("i + 1 with i < ops.len()", G),
+    "parse_expression::{closure#1}|assert:bounds|0": ("w[0] on a windows(2) slice (always length 2)", G),
+    "parse_expression::{closure#1}|assert:bounds|1": ("w[1] on a windows(2) slice (always length 2)", G),
+    "parse_integer_literal|assert:overflow:Neg|0": ("negation of an i128 magnitude parsed from at most a u64-sized digit string accepted by from_str_radix; i128::MIN cannot be produced from a non-negative digit string", G),
+    "parse_length_pattern|index|0": ("parts[0]: str::split always yields at least one piece", G),
+    "parse_length_pattern|index|1": ("parts[0]: as above", G),
+    "parse_length_pattern|index|2": ("parts[1] guarded by parts.len() > 1 in the same condition", G),
+    "parse_length_pattern|index|3": ("parts[1] on the branch where parts.len() > 1 held", G),
+    "parse_match_statement|unwrap|0": ("with_clause.take().unwrap() directly under `if query.with_clause.is_some()`", G),
+    "parse_primary|index|0": ("as_str()[1..] of a `parameter` pair: the token starts with the one-byte '$'", "parameter-starts-with-dollar"),
+    "parse_property_access|index|0": ("parts[0] after `parts.len() != 2` returned an error", G),
+    "parse_property_access|index|1": ("parts[1] after `parts.len() != 2` returned an error", G),
+    "parse_reduce_expression|index|0": ("variables[0] after `variables.len() < 2 || expressions.len() < 3` returned an error", G),
+    "parse_reduce_expression|index|1": ("expressions[0]: same guard", G),
+    "parse_reduce_expression|index|2": ("variables[1]: same guard", G),
+    "parse_reduce_expression|index|3": ("expressions[1]: same guard", G),
+    "parse_reduce_expression|index|4": ("expressions[2]: same guard", G),
+    "parse_remove_clause|index|0": ("children[0] guarded by children.len() == 1 in the same condition", G),
+    "parse_remove_clause|index|1": ("children[0] on the branch where children.len() == 1 held", G),
+    "parse_term|index|0": ("prefix_ops[0] guarded by prefix_ops.len() == 1 in the same condition", G),
+    "parse_term|unwrap|0": ("primary_pair.unwrap(): every `term` has exactly one mandatory `primary` child", "term-has-primary"),
+    "parse_term|unwrap|1": ("slice_start's inner.next().unwrap(): slice_start = { expression }", "slice_start-is-expression"),
+    "parse_term|unwrap|2": ("slice_end's inner.next().unwrap(): slice_end = { expression }", "slice_end-is-expression"),
+    "parse_term|assert:bounds|0": ("text.as_bytes()[1] guarded by text.len() > 2 in the same && chain", G),
+    "parse_yield_item|index|0": ("inner[0] under inner.len() >= 1", G),
+    "parse_yield_item|index|1": ("inner[1] under inner.len() >= 2", G),
+    "unescape_string_literal|index|0": ("literal[1..len-1] of a `string` token, which begins and ends with a one-byte quote (len >= 2, char boundaries)", "string-is-quoted"),
+    # function-level entries (one named symbol each): every site of the function shares one argument
+    "check_nesting_depth|*": ("byte scanner over `input.as_bytes()`: every bytes[i] is evaluated under `i < bytes.len()` (loop condition or the left operand of the same &&), every `i + k` / `depth + 1` is bounded by the slice length (<= isize::MAX) or by MAX_NESTING_DEPTH + 1, bytes[i - 1] is behind the `i == 0 ||` test", G),
+    "check_nesting_depth::{closure#0}|*": ("is_word(): the range bytes[i..i + w.len()] is behind `bytes.len() >= i + w.len()` in the same && chain", G),
+    "unescape_string_literal|assert:overflow:Sub|0": ("literal.len() - 1 with len >= 2 (quoted token)", "string-is-quoted"),
 }
 
 
@@ -97,6 +139,88 @@ def run(ctx, F, cg):
     ctx.floor("R25a", "numeric parse sites in the parser", nsites, 12)
     if ncasts == 0:
         ctx.ok("R25b", "no-narrowing-casts", "no `as` cast on a value derived from a numeric parse in %d functions" % len(fns))
-    ctx.note("panic-capable call inventory of the parser module (evidence only, not claimed): %s" % inventory)
+    # ---- R25c panic inventory ------------------------------------------------------------------------------------
+    ctx.rule("R25c", "every panic-capable site in query::parser (unwrap/expect/panic, slice and Vec indexing, arithmetic/bounds asserts) is in the reviewed table with its argument; arguments that lean on the grammar are re-checked against cypher.pest on every run; any new site is reported")
+    from .. import grammar
+    from ..facts import REPO
+    rules_g = grammar.load(REPO)
+
+    def g_mandatory_child(rule, child):
+        body = rules_g.get(rule, "")
+        import re as _re
+        return bool(_re.search(r"(^|[\s(~|])%s(\s*[~)|]|\s*$)" % child, body)) and not _re.search(r"%s\s*[?*]" % child, body)
+    GRAMMAR_FACTS = {
+        "term-has-primary": g_mandatory_child("term", "primary"),
+        "slice_start-is-expression": rules_g.get("slice_start", "").strip() == "expression",
+        "slice_end-is-expression": rules_g.get("slice_end", "").strip() == "expression",
+        "parameter-starts-with-dollar": rules_g.get("parameter", "").strip().startswith('"$"'),
+        "string-is-quoted": all(a.strip().startswith(("\"\\\"\"", "\"'\"")) and a.strip().endswith(("\"\\\"\"", "\"'\"")) for a in grammar.top_alternatives(rules_g.get("string", "x"))),
+    }
+    nsite = 0
+    for p, r in sorted(fns.items()):
+        m = F.mir(p)
+        if m is None:
+            continue
+        b = Body(m, r)
+        short = p.replace(MOD + "::", "")
+        ordn = {}
+        sites = []
+        for c in b.calls():
+            mm = c.path.rsplit("::", 1)[-1]
+            if mm in ("unwrap", "expect", "unwrap_unchecked") and ("Option" in c.path or "Result" in c.path):
+                sites.append(("unwrap", c.line))
+            elif c.path.startswith(("core::panicking", "std::rt::panic", "std::panicking")) or mm in ("panic", "unreachable", "panic_fmt", "begin_panic", "unreachable_display"):
+                sites.append(("panic", c.line))
+            elif mm in ("index", "index_mut") and ("Index" in c.path or "index" in c.path) and "RangeFull" not in c.full:
+                sites.append(("index", c.line))
+        for i in sorted(b.live_blocks()):
+            t = b.blocks[i]["t"]
+            if t[0] == "assert":
+                sites.append(("assert:" + t[1], b.blocks[i]["l"]))
+        for kind, line in sites:
+            nsite += 1
+            k = ordn.get(kind, 0)
+            ordn[kind] = k + 1
+            inst = "%s|%s|%d" % (short, kind, k)
+            ent = PANIC_REVIEWED.get(inst) or PANIC_REVIEWED.get(short + "|*")
+            if ent is None:
+                ctx.violation("R25c", inst + "|unreviewed", where(r, line), "a panic-capable site (%s) in the parser is not in the reviewed table: a crafted query may crash the server" % kind)
+                continue
+            why, gfact = ent
+            if gfact and not GRAMMAR_FACTS.get(gfact, False):
+                ctx.violation("R25c", inst + "|grammar-fact|" + gfact, where(r, line), "the argument for this site (%s) relies on the grammar fact `%s`, which no longer holds in cypher.pest" % (why, gfact))
+            else:
+                ctx.ok("R25c", inst, why + (" [grammar: %s]" % gfact if gfact else ""))
+    ctx.floor("R25c", "panic-capable sites in the parser", nsite, 25)
+    # ---- R25d bounded recursion depth -------------------------------------------------------------------------
+    ctx.rule("R25d", "parse_query runs a nesting-depth guard before the recursive pest parser: a local function that counts the opening brackets, compares the depth with a constant and returns an error, whose result is propagated with `?` and which dominates every CypherParser::parse call")
+    from .. import consts as _consts
+    pq = F.fn("query::parser::parse_query")
+    pb = Body(F.mir(pq["path"]), pq)
+    pest_calls = [c for c in pb.calls() if c.path.endswith("Parser>::parse") or c.path.endswith("::parse") and "CypherParser" in c.full]
+    # pipeline entry points that call the pest parser themselves must be reached only through parse_query's guard
+    guards = []
+    for c in pb.calls():
+        if c.path in fns and c.path != pq["path"]:
+            gb = Body(F.mir(c.path), fns[c.path])
+            chars = _consts.char_set(F, c.path)
+            has_cmp = any(rv[0] == "bin" and rv[1] in ("Gt", "Ge", "Lt", "Le") and any(o[0] == "k" for o in rv[2:4]) for i, j, pl, rv, line, exp in gb.stmts())
+            has_err = any(rv[0] == "agg" and rv[1].endswith("Result::Err") for i, j, pl, rv, line, exp in gb.stmts())
+            if {"(", "[", "{"} <= chars and has_cmp and has_err:
+                prop = any(cc.path.endswith("Try>::branch") and cc.args and cc.args[0][0] != "k" and cc.args[0][1][0] == c.dest[0] for cc in pb.calls())
+                guards.append((c, prop))
+    if not pest_calls:
+        ctx.anchor_failure("R25d", "CypherParser::parse call in parse_query")
+    elif not guards:
+        ctx.violation("R25d", "parse_query|no-depth-guard", where(pq), "the recursive parser is entered without bounding the nesting depth: a few hundred nested parentheses overflow the stack and abort the process")
+    else:
+        g, prop = guards[0]
+        if prop and all(pb.dominates(g.bb, c.bb) for c in pest_calls):
+            ctx.ok("R25d", "parse_query|depth-guard", "%s()? dominates %d pest parse call(s)" % (g.path.rsplit("::", 1)[-1], len(pest_calls)))
+        else:
+            ctx.violation("R25d", "parse_query|depth-guard-bypassed", where(pq, g.line), "the nesting guard does not dominate every entry into the recursive parser, or its error is dropped")
+    others = [p for p, r in fns.items() if p != pq["path"] and r["vis"] == "pub" and any(c.endswith("Parser>::parse") for c in r["calls"])]
+    for o_ in others:
+        ctx.violation("R25d", "unguarded-entry|" + o_.replace(MOD + "::", ""), where(fns[o_]), "public parser entry point %s reaches the recursive parser without going through parse_query's nesting guard" % o_)
     return ("Decided: the numeric clause — every numeric parse result in the parser is surfaced as an error (no unwrap / default / .ok()), and parsed numbers are not "
             "narrowed by casts. Not decided (reported as inventory only): that the remaining unwrap/index sites over pest pairs cannot panic; that accepted numerals denote the same value.")
